@@ -5,7 +5,9 @@ path.Clean and net/http.Redirect vs Model/GoUrl.v + Model/Redirect.v on generate
 Node's WHATWG URL implementation (oracle). Monitor (from the property text): every Location / canonical redirect
 produced by the REAL code is resolved by Node's `new URL(location, requestURL)` and must stay on the ingress
 origin (standalone, SSO proxy) or on an http(s) host equal to / under the SSO domain (SSO server), unless it is
-the operator-configured default."""
+the operator-configured default. The generated strings include configuration-derived near misses (nearmiss.go) of the
+configured ingress / SSO domain / default redirect URL of several configurations per mode; the SSO proxy's login/logout are
+also driven as real handlers behind the real router (lib/props/_spx.py)."""
 import glob
 import itertools
 import os
@@ -199,6 +201,7 @@ def run(ctx):
                 stats["ssoserver_nonfallback"] += 1
                 key = (REQ_ORIGIN + reqpath, loc)
                 checks.setdefault(key, ("under-domain", domain, {"mode": "sso-server", "redirect_param": repr(param), "domain": repr(domain),
+                                                                 "default_redirect_url": repr(fbs),
                                                                  "canonical": repr(canon), "location": repr(loc)}))
                 raw = unhex(to[2])
                 if raw != fbs:
@@ -294,6 +297,11 @@ def run(ctx):
                 ctx.violation("c04-offsite-redirect", "the login URL built for autologin/retry resolves (WHATWG) outside the request origin", dict(case, resolved=r))
     stats["login_relative_locations"] = len(lkeys)
 
+    # ---- "and from the SSO proxy's login/logout": the real handlers behind the real router (lib/props/_spx.py)
+    from lib.props import _spx
+    xst, xnt = _spx.run(ctx, "C04")
+    ctx.nontrivial += xnt
+
     # ---- Model/Whatwg.v validated against Node
     nmax = 4 if ctx.tier == "quick" else 5
     for n in range(0, nmax + 1):
@@ -321,7 +329,11 @@ def run(ctx):
                 "StandaloneRedirect.Canonical + http.Redirect and through isValidAbsolutePath; up to length 3/4 through every other function "
                 "(url.Parse, ParseRequestURI, String, RelativeValidator, AbsoluteValidator, SSO server / SSO proxy Canonical and Clean, http.Redirect); "
                 "16 absolute-URL templates around the SSO domain with an exhaustively enumerated hole (20-symbol host alphabet, length <= 2/3); the strings of "
-                "pkg/url/*_test.go and testdata/open-redirects.txt (raw and query-escaped); token-structured random strings; raw random bytes; long runs. "
+                "pkg/url/*_test.go and testdata/open-redirects.txt (raw and query-escaped); token-structured random strings; raw random bytes; long runs; "
+                "configuration-derived near misses (harness/cmd/wwh/nearmiss.go) of every configured value - request origin + ingress path (3 standalone "
+                "configurations), SSO domain and default redirect URL (8 SSO-server configurations: default with/without path, under/outside the domain, "
+                "with a port), ingress (5 SSO-proxy configurations) - the whole pool through every function under the default configuration and each "
+                "configuration's own near misses through its mode's Canonical/Clean (thorough: the whole pool under every configuration). " + _spx.RULE + ". "
                 "distinct_nontrivial = cases whose canonical redirect is not the fallback")
     ctx.assumptions += [
         "browsers are represented by the WHATWG URL algorithm (Model/Whatwg.v for the theorems, Node 20's implementation for the monitor); the model is validated against Node only",
@@ -329,4 +341,4 @@ def run(ctx):
         "the value passed to Clean at login/logout callback time is the value Canonical stored in the encrypted cookie (cookie integrity: C-series crypto properties); validating an un-canonicalised target is proved unsafe (c04_raw_validation_unsafe)",
         "net/url, path.Clean and net/http.Redirect are modelled by transliteration and tied to the Go toolchain by the differential only",
         "the operator-configured defaults (ingress, default redirect URL, post-logout URI) are not validated by the property",
-    ]
+    ] + _spx.ASSUME
